@@ -29,9 +29,13 @@ type set struct {
 }
 
 func gen(seed, idx int64) set {
-	g := &schema.Gen{R: prng.For(seed, "C19", "corpus", idx), Typedefs: true, NoActInGroup: true, NoAbsentIO: true}
+	g := &schema.Gen{R: prng.For(seed, "C19", "corpus", idx), Typedefs: true, NoActInGroup: true, NoAbsentIO: true, Posix: idx%2 == 0}
 	g.Build()
 	var s set
+	if g.Posix {
+		s.Names = append(s.Names, "openconfig-extensions.yang")
+		s.Texts = append(s.Texts, schema.OCXText)
+	}
 	for _, m := range g.Mods {
 		s.Names = append(s.Names, m.Name+".yang")
 		s.Texts = append(s.Texts, schema.Print(m))
